@@ -3,17 +3,15 @@ CONSTANTS
   MaxNodes = 12
   BaseSet <- AllBases
   RunCfgSeq <- RunsThorough
+  Prods <- AllProds
+  KISet <- KIClassic
   EmitMin = 0
   EmitFrom = 9
   EmitMod = 1
 INIT Init
 NEXT Next
 INVARIANTS
-  OnlySignedContent
-  RejectsUntrusted
-  AcceptsGenuine
-  EncryptionTransparent
+  AllProps
   MustRejectAgrees
   FindSigAgrees
-  Emit
 CHECK_DEADLOCK FALSE
